@@ -220,6 +220,38 @@ def h_dm1_history(ex, ops, n=1):
     ex.witness()
 
 
+def h_dm1_both(ex, cycles=4):
+    """a node that sends DM1 and listens to DM1 with the SAME Dm1 object, its callback handing out the same DTC list object
+    every cycle, while another node sends its own DM1: what each node broadcasts stays what its application supplies"""
+    w = W.World(ex, mode='interleave')
+    sa = Stack(w, 'A', 0x10)
+    sb = Stack(w, 'B', 0x20)
+    sc = Stack(w, 'C', 0x30)
+    dtc_a = [{'spn': ex.fresh_int('spn_a', 0, (1 << 19) - 1), 'fmi': ex.fresh_int('fmi_a', 0, 31), 'oc': ex.fresh_int('oc_a', 0, 127)}]
+    dtc_b = [{'spn': ex.fresh_int('spn_b', 0, (1 << 19) - 1), 'fmi': ex.fresh_int('fmi_b', 0, 31), 'oc': ex.fresh_int('oc_b', 0, 127)}]
+    ref_a, ref_b = [dict(dtc_a[0])], [dict(dtc_b[0])]
+    a, b, c = j1939.Dm1(sa.ca), j1939.Dm1(sb.ca), j1939.Dm1(sc.ca)
+    heard_by_a = []
+    a.subscribe(lambda sa_, lamps, dl, ts: (w.callback_fired(), heard_by_a.append(sa_)))
+    seen = []
+    c.subscribe(lambda sa_, lamps, dl, ts: (w.callback_fired(), seen.append((sa_, [dict(d) for d in dl]))))
+    w.run(until=T('1/100'))
+    a.start_send(lambda: (w.callback_fired(), ({'pl': 1}, dtc_a))[1], cycletime=Fraction(1, 5))      # the same list object every cycle
+    b.start_send(lambda: (w.callback_fired(), ({'awl': 1}, [dict(dtc_b[0])]))[1], cycletime=Fraction(3, 10))
+    w.run(until=w.now + Fraction(1, 5) * cycles + Fraction(1, 10))
+    from_a = [d for s_, d in seen if bool(s_ == 0x10)]
+    from_b = [d for s_, d in seen if bool(s_ == 0x20)]
+    ex.claim('dm1.both.scene_reached', len(from_a) >= 3 and len(from_b) >= 2 and len(heard_by_a) >= 2, {'from_a': len(from_a), 'from_b': len(from_b), 'heard_by_a': len(heard_by_a)})
+    for who, got, ref in (('A', from_a, ref_a), ('B', from_b, ref_b)):
+        for d in got:
+            ok = len(d) == 1
+            ex.claim('dm1.both.dtc_count', ok, {'sender': who, 'got': len(d)})
+            if ok:
+                ex.claim('dm1.both.sender_keeps_its_own_codes', sym_and(d[0]['spn'] == ref[0]['spn'], d[0]['fmi'] == ref[0]['fmi'], d[0]['oc'] == ref[0]['oc']), {'sender': who})
+    ex.claim('job_threads_alive', sa.alive() and sb.alive() and sc.alive())
+    ex.witness()
+
+
 def h_dm1_overlap(ex, n=3, cycle='3/50', cycles=5):
     """cycle shorter than the BAM it triggers and content that changes every cycle: a cycle that finds the
     previous transfer still running is legitimately skipped, but whatever a subscriber receives is exactly one
@@ -297,6 +329,7 @@ def jobs(tier):
         ]
     for h in hists:
         out.append(Job('C16', 'c16:h_dm1_history', {'ops': h}, W=40, wall=300, validate=1))
+    out.append(Job('C16', 'c16:h_dm1_both', {}, W=40, wall=300, validate=1))
     out.append(Job('C16', 'c16:h_dm1_overlap', {'n': 3, 'cycle': '3/50', 'cycles': 5}, W=40, wall=300, validate=1))
     out.append(Job('C16', 'c16:h_dm1_overlap', {'n': 5, 'cycle': '1/10', 'cycles': 6}, W=40, wall=300, validate=1))
     return out
@@ -308,7 +341,7 @@ def meta(tier):
                    'lamps: all 5^4 state combinations (split by the solver at the table lookup)',
                    'DM22: all SPN/FMI, destination 0..253, both request kinds',
                    'DM1 end to end on J1939-21 (single frame and BAM), number of codes n in ' + ('{1,2,3,15}' if tier == 'quick' else '{1..20,100,400,445}') + ', every DTC field symbolic, 1-4 lamps symbolic, 2-3 cycles, then stop_send (from the application, and from another timer callback due in the same pass) and 3 more cycle times',
-                   'DM1 end to end on J1939-22: n in ' + ('{1,14,15}' if tier == 'quick' else '{1,2,7,14,15,16,40,100}') + ' (multi-PG up to 58 bytes, FD BAM above)', 'cycle times 0.2 s / 1 s (>= transfer duration)', 'start_send / stop_send histories on one Dm1 object: several start_send calls with equal and different cycle times, stop, restart', 'overlap shape: cycle time shorter than the BAM, trouble codes change every cycle (fresh symbolic SPN/OC per call): every received DM1 equals one supplied snapshot'],
+                   'DM1 end to end on J1939-22: n in ' + ('{1,14,15}' if tier == 'quick' else '{1,2,7,14,15,16,40,100}') + ' (multi-PG up to 58 bytes, FD BAM above)', 'cycle times 0.2 s / 1 s (>= transfer duration)', 'start_send / stop_send histories on one Dm1 object: several start_send calls with equal and different cycle times, stop, restart', 'one Dm1 object that sends and listens (its callback handing out the same list object each cycle) next to another sender', 'overlap shape: cycle time shorter than the BAM, trouble codes change every cycle (fresh symbolic SPN/OC per call): every received DM1 equals one supplied snapshot'],
         'outside': ['cycle times shorter than the BAM they trigger (except the overlap shape)'],
         'assumptions': ['reference layouts jv/ref/dm.py from SAE J1939-73 field tables'],
     }
